@@ -7,7 +7,7 @@ ID = 'C10'
 COQ_TARGETS = ['Props/Properties_C10.vo', 'Proofs/NetReadClean.vo']    # the netio extraction (shared with C05) needs the second one
 PROPS_FILES = ['Props/Properties_C10.v']
 THEOREMS = ['C10_net_writen', 'C10_literal_replies', 'C10_literal_checker_sound', 'C10_templates_ok', 'C10_sites_writen',
-            'C10_multiline_writer', 'C10_sites_multiline', 'C10_dnstxt_clean', 'C10_nomail', 'C10_unpatched_refuted', 'C10_hole_sources']
+            'C10_multiline_writer', 'C10_sites_multiline', 'C10_reply_sequences', 'C10_dnstxt_clean', 'C10_nomail', 'C10_unpatched_refuted', 'C10_hole_sources']
 ENGINES = [dict(name='netio', c_sources=['netio_h.c'], extract='Extract/Extract_netio.v', driver='netio_driver.ml',
                 accepts=lambda c: c.startswith('aa ')),
            dict(name='replysites', c_sources=['replysites_h.c', 'replysites_real.c', 'replysites_filters.c', 'replysites_owfat.c'],
